@@ -43,6 +43,33 @@ def run_lemma1(g: GSpec, T, topo):
     return compute_c_factor(district=[Variable(n) for n in topo if n in T], subgraph_variables=set(V), subgraph_probability=P(V), graph_topo=V)
 
 
+def plain_conditional(children, parents, population=False):
+    """P(children | parents) as one Probability object (or PP[pi*](children | parents))."""
+    from y0.dsl import TARGET_DOMAIN, Distribution, PopulationProbability, Probability, Variable
+
+    d = Distribution(children=tuple(Variable(n) for n in children), parents=tuple(Variable(n) for n in parents))
+    return PopulationProbability(population=TARGET_DOMAIN, distribution=d) if population else Probability(d)
+
+
+def make_form(form, g, T, topo):
+    """The expression handed to IDENTIFY as Q[T] (tian_id.py has separate branches for plain and population-tagged
+    probabilities, and for joint / conditional / derived inputs)."""
+    from y0.algorithm.tian_id import compute_c_factor
+    from y0.dsl import Variable
+
+    inside, outside = [n for n in topo if n in T], [n for n in topo if n not in T]
+    if form == "lemma1":
+        return run_lemma1(g, T, topo)
+    if form == "conditional":
+        return plain_conditional(inside, outside)
+    if form == "pp-conditional":
+        return plain_conditional(inside, outside, population=True)
+    if form == "pp-lemma1":
+        V = [Variable(n) for n in topo]
+        return compute_c_factor(district=[Variable(n) for n in inside], subgraph_variables=set(V), subgraph_probability=plain_conditional(topo, [], population=True), graph_topo=V)
+    raise ValueError(form)
+
+
 def run_identify(g: GSpec, C, T, qT, topo):
     from y0.algorithm.tian_id import identify_district_variables
     from y0.dsl import Variable
@@ -109,19 +136,43 @@ def work(job):
                 continue
             r = decide(g, qT, T, model, den, timeout_ms)
             res.append(dict(rec0, kind="lemma1", status="ok", out=str(qT), **r))
-            for C in single_district_subsets(g, T):
-                rec = dict(rec0, C=sorted(C), kind="identify")
-                try:
-                    e = run_identify(g, C, T, qT, topo)
-                except Exception as ex:  # noqa: BLE001
-                    res.append(dict(rec, status="crash", exc=f"{type(ex).__name__}: {short(ex, 120)}"))
-                    continue
-                if e is None:
-                    res.append(dict(rec, status="fail"))
-                    continue
-                r = decide(g, e, C, model, den, timeout_ms)
-                res.append(dict(rec, status="ok", out=str(e), **r))
+            forms = [("lemma1", qT)]
+            try:
+                forms.append(("pp-lemma1", make_form("pp-lemma1", g, T, topo)))
+            except Exception as e:  # noqa: BLE001
+                res.append(dict(rec0, kind="qT-pp-lemma1", status="crash", exc=f"{type(e).__name__}: {short(e, 120)}"))
+            outside = [n for n in topo if n not in T]
+            if outside and all(not g.parents(n) and not any(n in e for e in g.bi) for n in outside):
+                # every node outside T is an unconfounded root: Q[T] = P(T | do(V - T)) = P(T | V - T), a plain conditional
+                forms.append(("conditional", make_form("conditional", g, T, topo)))
+                forms.append(("pp-conditional", make_form("pp-conditional", g, T, topo)))
+            for form, q in forms:
+                if form != "lemma1":
+                    r0 = decide(g, q, T, model, den, timeout_ms)
+                    res.append(dict(rec0, kind="qT-" + form, status="ok", out=str(q), **r0))
+                for C in single_district_subsets(g, T):
+                    rec = dict(rec0, C=sorted(C), kind="identify", form=form)
+                    try:
+                        e = run_identify(g, C, T, q, topo)
+                    except Exception as ex:  # noqa: BLE001
+                        res.append(dict(rec, status="crash", exc=f"{type(ex).__name__}: {short(ex, 120)}"))
+                        continue
+                    if e is None:
+                        res.append(dict(rec, status="fail"))
+                        continue
+                    r = decide(g, e, C, model, den, timeout_ms)
+                    res.append(dict(rec, status="ok", out=str(e), **r))
     return res
+
+
+def conditional_input_graph(g: GSpec) -> bool:
+    """Some district T of >= 3 nodes, every node outside T an unconfounded root with a child: Q[T] can be given as
+    the plain conditional P(T | V - T), and IDENTIFY can recurse (C < An(C) < T needs |T| >= 3)."""
+    for T in g.districts():
+        out = [n for n in g.nodes if n not in T]
+        if len(T) >= 3 and out and all(not g.parents(n) and not any(n in e for e in g.bi) and g.children(n) for n in out):
+            return True
+    return False
 
 
 def jobs_for(t):
@@ -130,6 +181,9 @@ def jobs_for(t):
     if t == "quick":
         for g in family(3):
             jobs.append((g, None, to))
+        for i, g in enumerate(family(4, labellings=("fwd",), n_min=4)):
+            if i % 4 != seed() % 4 and conditional_input_graph(g):
+                jobs.append((g, 2, to))
         for name in ("napkin", "frontdoor", "verma", "fig3_tikka", "two_fd"):
             jobs.append((CURATED[name], 2, to))
         for i, g in enumerate(family(4, labellings=("fwd",), n_min=4)):
@@ -156,7 +210,7 @@ def run() -> int:
     ]
     rep.bounds = {
         "graphs": "quick: ADMGs <=3 nodes (two labellings, every topological order), curated 4-node graphs (2 orders), 1/4 of the 4-node classes (2 orders); thorough: all ADMGs <=4 nodes (two labellings, 2 orders), curated list",
-        "inputs": "every district T; Q[T] = the library's own Lemma-1 product from P(V); every non-empty C subset of T inducing a single district",
+        "inputs": "every district T; Q[T] = the library's own Lemma-1 product from P(V) and, when every node outside T is an unconfounded root, also the plain conditional P(T | V - T); each form also population-tagged (PP[pi*]), since tian_id.py has separate branches for it (both tiers: every 4-node class with a 3-node district and such a root); every non-empty C subset of T inducing a single district",
         "models": "all positive binary SCMs, one binary latent per bidirected edge; all value assignments of all variables in one query",
         "per_query_timeout_ms": TIMEOUT_MS[t],
         "PYTHONHASHSEED": hashseed(),
@@ -170,9 +224,9 @@ def run() -> int:
         for r in res:
             rep.cases += 1
             g = GSpec.from_json(r["g"])
-            key = f"{g.key()} order={''.join(r['topo']) if all(len(x) == 1 for x in r['topo']) else r['topo']} T={r['T']}" + (f" C={r['C']}" if "C" in r else "") + f" [{r['kind']}]"
+            key = f"{g.key()} order={''.join(r['topo']) if all(len(x) == 1 for x in r['topo']) else r['topo']} T={r['T']}" + (f" C={r['C']}" if "C" in r else "") + f" [{r['kind']}{'/' + r['form'] if r.get('form', 'lemma1') != 'lemma1' else ''}]"
             rep.count(r["kind"] + ":" + r["status"])
-            base = {"property": PROP, "graph": r["g"], "topo": r["topo"], "T": r["T"], "C": r.get("C"), "call": r["kind"], "hashseed": hashseed()}
+            base = {"property": PROP, "graph": r["g"], "topo": r["topo"], "T": r["T"], "C": r.get("C"), "call": r["kind"], "form": r.get("form"), "hashseed": hashseed()}
             if r["status"] == "crash":
                 rep.add_violation(Violation(PROP, [key, "crash:" + r["kind"] + ":" + r["exc"].split(":")[0]], f"{r['kind']} raised {r['exc']} for {key}", dict(base, kind="crash", exc=r["exc"])))
                 continue
@@ -208,8 +262,8 @@ def replay(payload: dict) -> int:
     topo, T, C = payload["topo"], set(payload["T"]), payload.get("C")
     print("graph", g.key(), "order", topo, "T", sorted(T), "C", C)
     try:
-        qT = run_lemma1(g, T, topo)
-        expr, S = (qT, T) if payload["call"] == "lemma1" else (run_identify(g, set(C), T, qT, topo), set(C))
+        qT = make_form(payload.get("form") or (payload["call"][3:] if payload["call"].startswith("qT-") else "lemma1"), g, T, topo)
+        expr, S = (qT, T) if payload["call"] == "lemma1" or payload["call"].startswith("qT-") else (run_identify(g, set(C), T, qT, topo), set(C))
     except Exception as e:  # noqa: BLE001
         print(f"raised {type(e).__name__}: {e}")
         return 1 if payload["kind"] == "crash" else 0
